@@ -3970,6 +3970,12 @@ class SFTPClient:
                 srcattrs = await srcfs.stat(srcpath)
                 filetype = srcattrs.type
 
+            if dstpath in self._copied_links and \
+                    filetype != FILEXFER_TYPE_SYMLINK:
+                # Don't write through a symbolic link which was
+                # created from an earlier source of the same name
+                raise SFTPFailure('Destination is a symbolic link')
+
             if filetype == FILEXFER_TYPE_DIRECTORY:
                 if not recurse:
                     exc = SFTPFileIsADirectory if self.version >= 6 \
@@ -4008,21 +4014,6 @@ class SFTPClient:
 
                     srcfile = posixpath.join(srcpath, filename)
                     dstfile = posixpath.join(dstpath, filename)
-
-                    if dstfile in self._copied_links and \
-                            srcname.attrs.type != FILEXFER_TYPE_SYMLINK:
-                        # Don't write through a symbolic link which was
-                        # created from an earlier entry of the same name
-                        exc = SFTPFailure('Destination is a symbolic link')
-
-                        setattr(exc, 'srcpath', srcfile)
-                        setattr(exc, 'dstpath', dstfile)
-
-                        if error_handler:
-                            error_handler(exc)
-                            continue
-                        else:
-                            raise exc
 
                     await self._copy(srcfs, dstfs, srcfile, dstfile,
                                      srcname.attrs, preserve, recurse,
